@@ -66,7 +66,7 @@ def plan(tier, seed):
     for pi in range(len(PROVIDERS)):
         for api in ("sync", "async"):
             # quick/async: the deepest level is sampled with a rotating stride (every element still occurs under some prefix)
-            specs.append({"name": f"tree-p{pi}-{api}", "kind": "tree", "provider": pi, "api": api, "depth": depth, "stride": 6 if (tier == "quick" and api == "async") else (2 if tier == "quick" else 1)})
+            specs.append({"name": f"tree-p{pi}-{api}", "kind": "tree", "provider": pi, "api": api, "depth": depth, "stride": (6 if api == "async" else 2) if tier == "quick" else (48 if api == "async" else 16)})
     specs.append({"name": "real", "kind": "real", "n": 6 if tier == "quick" else 60})
     return specs
 
@@ -321,7 +321,7 @@ def run_tree(spec, rec: Recorder):
             for prefix in frontier:
                 for elem in alphabet(len(prefix)):
                     k += 1
-                    if d == depth - 1 and d >= 2 and stride > 1 and k % stride:
+                    if d == depth - 1 and d >= (2 if depth <= 3 else 4) and stride > 1 and k % stride:
                         continue
                     script = prefix + (elem,)
                     exp = reference(provider, script)
